@@ -611,7 +611,7 @@ def check_orders(ctx: Ctx, b, case, backend, lay, full: bool):
     from gotranx.codegen.python import Format
     from gotranx.schemes import get_scheme
     cls = gotranx.codegen.PythonCodeGenerator if backend == "numpy" else gotranx.codegen.JaxCodeGenerator
-    cg = cls(b.ode, format=Format.none)
+    cg = cls(b.ode, format=Format.none, remove_unused=bool(case.get("remove_unused", False)))
     letter = {"s": "states", "t": "t", "p": "parameters", "d": "dt"}
     for fn, letters, emit in (("rhs", "stp", lambda o: cg.rhs(order=o)),
                               ("explicit_euler", "stpd", lambda o: cg.scheme(get_scheme("explicit_euler"), order=o))):
